@@ -82,7 +82,6 @@ func (r *run) batch(sub []Op) (*failure, bool) {
 	r.class("batch")
 	activeAtStart, liveAtStart, idleAtStart := len(r.active())+r.foreign, r.live(), len(r.idle)
 	leasedAtStart := liveAtStart - idleAtStart
-	idleClosedInBatch := false
 	desc := ""
 	for _, it := range items {
 		desc += " " + it.op.K
@@ -91,9 +90,6 @@ func (r *run) batch(sub []Op) (*failure, bool) {
 		}
 		if it.c != nil {
 			desc += fmt.Sprintf(":c%d", it.c.id)
-			if it.c.state == cIdle {
-				idleClosedInBatch = true
-			}
 		}
 		if it.tok != "" {
 			desc += ":" + it.tok
@@ -104,6 +100,9 @@ func (r *run) batch(sub []Op) (*failure, bool) {
 	initWait := r.d
 	if r.mode != pool.ModeAccept || r.shut {
 		initWait = r.d / 100
+	}
+	if leases > 0 {
+		r.markLeaseAfterGoAway()
 	}
 	start := make(chan struct{})
 	var wg sync.WaitGroup
@@ -206,11 +205,8 @@ func (r *run) batch(sub []Op) (*failure, bool) {
 		switch {
 		case res.NotInit:
 			r.class("conn-failure")
-			if r.mode == pool.ModeAccept && !r.shut && !idleClosedInBatch && len(usedC) == 0 && false {
-				// (not judged in a batch: the multiplex pool replaces a lost connection asynchronously; whether
-				// capacity comes back is judged by the sequential leases, which retry)
-				return r.failf(true, "multiplex-never-connects", "batch{%s }: CheckAndInit did not turn true although the upstream accepts connections; model: %s", desc, r.describe()), false
-			}
+			// not judged in a batch: the multiplex pool replaces a lost connection asynchronously; whether
+			// capacity comes back is judged by the sequential leases, which retry
 			continue
 		case res.Reason == types.Overflow:
 			r.logf("  lease %s: Overflow", it.tok)
